@@ -313,6 +313,7 @@ func strTerm(v value) string {
 }
 
 func inTrimPrefix(fr *frame, args []value) value {
+	urlStructTrigger(fr, args)
 	s, sok := args[0].(string)
 	p, pok := args[1].(string)
 	if sok && pok {
@@ -323,6 +324,7 @@ func inTrimPrefix(fr *frame, args []value) value {
 }
 
 func inHasPrefix(fr *frame, args []value) value {
+	urlStructTrigger(fr, args)
 	s, sok := args[0].(string)
 	p, pok := args[1].(string)
 	if sok && pok {
@@ -332,6 +334,7 @@ func inHasPrefix(fr *frame, args []value) value {
 }
 
 func inHasSuffix(fr *frame, args []value) value {
+	urlStructTrigger(fr, args)
 	s, sok := args[0].(string)
 	p, pok := args[1].(string)
 	if sok && pok {
@@ -341,6 +344,11 @@ func inHasSuffix(fr *frame, args []value) value {
 }
 
 func inContains(fr *frame, args []value) value {
+	urlStructTrigger(fr, args)
+	return containsImpl(fr, args)
+}
+
+func containsImpl(fr *frame, args []value) value {
 	s, sok := args[0].(string)
 	p, pok := args[1].(string)
 	if sok && pok {
@@ -1285,5 +1293,16 @@ func init() {
 			}
 		}
 		return lo
+	}
+}
+
+// urlStructTrigger: string analysis applied to the text of an abstract IRI/host switches the URL
+// text structure axioms on (see enableURLStructure).
+func urlStructTrigger(fr *frame, args []value) {
+	for _, a := range args {
+		if x, ok := a.(*sym); ok && (x.s == sAtom || strings.Contains(x.e, "(atom_str ")) {
+			fr.i.pc.enableURLStructure()
+			return
+		}
 	}
 }
